@@ -56,7 +56,7 @@ pub fn parse_digits(value: &str) -> Result<Vec<u64>, String> {
         let digit = match c {
             '0'..='9' => c as u64 - '0' as u64,
             'a'..='f' => c as u64 - 'a' as u64 + 10,
-            'A'..='F' => c as u64 - 'A' as u64,
+            'A'..='F' => c as u64 - 'A' as u64 + 10,
             '_' => continue,
             _ => return Err(format!("Invalid character '{c}'")),
         };
@@ -121,7 +121,7 @@ pub fn parse_suffix(source: &str) -> Option<(LiteralBaseType, usize, &str)> {
     let bits = bits.parse::<usize>().ok()?;
 
     // Ignore hexadecimal Bits literals without `_` before the suffix.
-    if base_type == LiteralBaseType::Bits && value.starts_with("0x") && !value.ends_with('_') {
+    if base_type == LiteralBaseType::Bits && value.starts_with("0x") && !value.contains('_') {
         return None;
     }
     Some((base_type, bits, value))
